@@ -721,8 +721,8 @@ def disagreement(case, impl, ans):
 
 
 def relax_optional(a, b):
-    """`b` with every member made optional that is optional in the corresponding struct of `a` (the condition of the
-    recorded finding `optional-vs-mandatory`, repaired on the second type)"""
+    """`b` with every member made optional where the corresponding struct of `a` has all its members optional (the condition
+    of the recorded finding `optional-vs-mandatory`, repaired on the second type)"""
     if a['t'] == b['t'] == 'array':
         return dict(b, elem=relax_optional(a['elem'], b['elem']))
     if a['t'] == b['t'] == 'tuple':
@@ -730,7 +730,9 @@ def relax_optional(a, b):
     if a['t'] == b['t'] == 'struct':
         ma = dict((k, m) for k, m in a['members'])
         members = [[k, relax_optional(ma[k], m) if k in ma else m] for k, m in b['members']]
-        optional = list(b['optional']) + [k for k, _ in b['members'] if k in a['optional'] and k not in b['optional']]
+        all_optional = set(a['optional']) == set(k for k, _ in a['members'])
+        optional = list(b['optional']) + [k for k, _ in b['members']
+                                          if all_optional and k in a['optional'] and k not in b['optional']]
         return dict(b, members=members, optional=optional)
     return b
 
